@@ -103,6 +103,17 @@ def run(res, tier):
         for imp, renorm in (("csr", 0), ("collimator", 3)):
             for o, s in itertools.product(outsteps, saves):
                 cfgs.append(dict(outstep=o, save=s, track=None, verbose=(o + s) % 2, name="a", renorm=renorm, rf="linear", imp=imp, n=16, mod=0, start=0, x=x))
+    if vlib.deep(tier):     # thorough: every PAIR of the rarely used options as a physics key of its own (a reduced cadence set)
+        global XTRA
+        n1 = len(XTRA)
+        for i in range(1, n1):
+            for j in range(i + 1, n1):
+                names = lambda v: set(x for x in v if isinstance(x, str) and x.startswith("-"))
+                if names(XTRA[i]) & names(XTRA[j]):
+                    continue
+                XTRA.append(XTRA[i] + XTRA[j])
+                for o, s_ in ((0, 0), (2, 1), (3, 2), (5, 0), (11, 1)):
+                    cfgs.append(dict(outstep=o, save=s_, track=None, verbose=0, name="a", renorm=3, rf="linear", imp="csr", n=16, mod=0, start=0, x=len(XTRA) - 1))
     # the reference of every physics key: every step written, every phase space saved
     refs = {}
     for k in sorted(set(phys_key(c) for c in cfgs)):
